@@ -38,6 +38,8 @@ var c19Facades = map[string]facadeDef{
 	// family 1: prefixes that end below one of two overlapping parameter siblings
 	"Pa": {"", "prefix", "/p/{a}/x/", nil},
 	"Pb": {"", "prefix", "/p/{b}x/", nil},
+	// family 2: a prefix whose routes share one parameter node next to two equally ranked siblings
+	"Px": {"", "prefix", "/p/{x}/", nil},
 }
 
 // c19Sys is router A together with its facade objects. They are made once, when the router is made, and live as
@@ -152,9 +154,29 @@ func c19OrderAlphabet() []fstep {
 	}
 }
 
+// c19RankAlphabet (family 2): /p/{t}- and /p/{u}+- both match /p/1+-; a third parameter sibling /p/{x}/ holds two
+// routes, so that removing them one by one re-joins its node on the way while Prefix.Clean drops it in one go: the
+// survivors must answer the same either way.
+func c19RankAlphabet() []fstep {
+	return []fstep{
+		{F: "Pp", K: "get", P: "/{t}-"},
+		{F: "Pp", K: "get", P: "/{u}+"},
+		{F: "Pp", K: "get", P: "/{u}+-"},
+		{F: "Px", K: "get", P: "b"},
+		{F: "Px", K: "get", P: "c"},
+		{F: "Px", K: "clean"},
+		{F: "Pp", K: "remove", P: "/{u}+-"},
+		{F: "Px", K: "remove", P: "b"},
+		{F: "Pp", K: "remove", P: "/{t}-"},
+	}
+}
+
 func c19AlphabetOf(family int) []fstep {
 	if family == 1 {
 		return c19OrderAlphabet()
+	}
+	if family == 2 {
+		return c19RankAlphabet()
 	}
 	return c19Alphabet()
 }
@@ -349,9 +371,23 @@ var c19Probes = func() []hv.Req {
 	return append(qs, hv.Req{Method: "OPTIONS", Path: "*"})
 }()
 
-func c19Vector(r *Router) []string {
+var c19RankProbes = func() []hv.Req {
+	var qs []hv.Req
+	for _, p := range []string{"/p/1+-", "/p/1+", "/p/1-", "/p/1/b", "/p/1/c", "/p/1/b+-", "/p/1+--", "/p/1"} {
+		for _, m := range []string{"GET", "POST", "OPTIONS"} {
+			qs = append(qs, hv.Req{Method: m, Path: p})
+		}
+	}
+	return append(qs, hv.Req{Method: "OPTIONS", Path: "*"})
+}()
+
+func c19Vector(r *Router, family int) []string {
 	v := []string{"Routes(): " + RoutesString(RoutesOf(r))}
-	for _, q := range c19Probes {
+	probes := c19Probes
+	if family == 2 {
+		probes = c19RankProbes
+	}
+	for _, q := range probes {
 		v = append(v, q.String()+" -> "+hv.Serve(r, q).Summary())
 	}
 	return v
@@ -412,7 +448,7 @@ func c19Expand(raw json.RawMessage) (any, error) {
 		case ra != rb:
 			rep("C19.url", "facade-differs:url", st.String(), ra, "as Router.URL on the concatenated pattern: "+rb)
 		}
-		va, vb := c19Vector(a.a), c19Vector(b)
+		va, vb := c19Vector(a.a, cfg.Family), c19Vector(b, cfg.Family)
 		c.Probes = int64(2 * len(va))
 		for i := range va {
 			if va[i] != vb[i] {
@@ -483,10 +519,12 @@ func init() {
 			"each program runs on router A as written and, desugared by a translator that only concatenates patterns and middleware lists (Prefix.Clean = remove every live pattern with that textual prefix), on router B through Router.Handle/Remove/URL; after every step Routes(), 105 dispatch observations (status, full middleware chain, pattern, Allow, params), URL results and panics must be identical",
 			"the facade objects are created once, with the router, and live as long as it does; Router.Use is in the alphabet, so a facade is also called after the router's middleware list changed",
 			"second family (depth+1): two overlapping parameter siblings /p/{a}/x and /p/{b}x with routes of their own and below them, registered in either order, Prefix.Clean below either of them, removals, the index block: which of the two answers /p/1/x... must be what the equivalent Remove calls leave",
+			"third family (depth+2): equally ranked parameter siblings /p/{t}- and /p/{u}+ (+-) that both match /p/1+-, next to Prefix(/p/{x}/) with two routes: Prefix.Clean against removing them one by one (which re-joins the shared node on the way)",
 			"dedup on the pair of reflective dumps")
 		for _, cfg := range []RouterCfg{{}, {Trace: true}} {
 			explore.BFS(rc, "c19/expand", c19Cfg{Router: cfg}, depth, true, "C19 "+cfg.String())
 		}
 		explore.BFS(rc, "c19/expand", c19Cfg{Router: RouterCfg{}, Family: 1}, depth+1, true, "C19 overlapping parameter siblings")
+		explore.BFS(rc, "c19/expand", c19Cfg{Router: RouterCfg{}, Family: 2}, depth+2, true, "C19 equally ranked parameter siblings")
 	}})
 }
